@@ -274,6 +274,9 @@ class UintField(CborField):
         if not isinstance(x, int):
             # an array, map or string is not a number
             raise ValueError(f'Not an integer item: {type(x).__name__}')
+        if x < 0:
+            # a negative integer (CBOR major type 1) is not a 'uint'
+            raise ValueError(f'Negative value in an unsigned integer item: {x}')
         return int(x)
 
     def any2i(self, pkt, x):
